@@ -89,6 +89,7 @@ impl COracle for ExchangeOracle {
             self.by_output.insert(out, k.clone());
             self.outputs.insert(k, out);
             ctx.stats.probe("distinct_triples");
+            ctx.stats.state(crate::choices::mix(w.servers.len() as u64, crate::choices::mix(w.cfg.tags.len() as u64, crate::choices::mix(x.md as u64, x.input.len() as u64))));
         }
         Ok(())
     }
@@ -225,7 +226,7 @@ impl Property for C12 {
         "C (randomness service): several servers, many clients and requests, dup/reorder/delay"
     }
     fn rule(&self) -> &'static str {
-        "one run = a world-C history without punctures: 1..3 independent servers (own keys), 2..8 clients issuing several requests each for a small pool of inputs and tags, transport with dup/reorder/delay (a duplicated request is simply a second evaluation). History oracle: (key, tag, input) -> finalised output is a function across all clients, requests and blindings and injective across triples; each unblinded point equals the server's evaluation of H(input) with H recomputed independently (Strobe + from_uniform_bytes); Client::finalize equals the documented hash; all blinded points in the history are pairwise distinct and differ from H(input). non-trivial = a triple was evaluated at least twice with different blindings and >= 2 distinct triples were seen"
+        "one run = a world-C history without punctures: 1..3 independent servers (own keys), 2..8 clients issuing several requests each for a small pool of inputs and tags, transport with dup/reorder/delay (a duplicated request is simply a second evaluation). History oracle: (key, tag, input) -> finalised output is a function across all clients, requests and blindings and injective across triples; each unblinded point equals the server's evaluation of H(input) with H recomputed independently (Strobe + from_uniform_bytes); Client::finalize equals the documented hash; all blinded points in the history are pairwise distinct and differ from H(input). non-trivial = a triple was evaluated at least twice with different blindings and >= 2 distinct triples were seen; states = (servers, tags, tag, input length) cells"
     }
     fn runs(&self, thorough: bool) -> u64 {
         if thorough { 300_000 } else { 6_000 }
